@@ -11,6 +11,7 @@ import (
 	"sort"
 	"strconv"
 	"strings"
+	"sync"
 	"time"
 )
 
@@ -102,18 +103,18 @@ func contractServes(fc *FuncContract, prop string) bool {
 }
 
 type PropertyRun struct {
-	Prop        string
-	Funcs       []string
-	FnErrors    map[string]string
-	Outcomes    []OblOutcome // claimed obligations
-	Canaries    []OblOutcome
-	Unclaimed   []OblOutcome
+	Prop         string
+	Funcs        []string
+	FnErrors     map[string]string
+	Outcomes     []OblOutcome // claimed obligations
+	Canaries     []OblOutcome
+	Unclaimed    []OblOutcome
 	UnclaimedWhy map[string]*UnclaimedEntry
-	Notes       []string
-	Trusted     map[string]bool
-	Requires    []string
-	SolverSecs  float64
-	Abstracted  []string
+	Notes        []string
+	Trusted      map[string]bool
+	Requires     []string
+	SolverSecs   float64
+	Abstracted   []string
 }
 
 func isMandatoryKind(k string) bool { return k == "ensures" || k == "lemma" }
@@ -344,6 +345,30 @@ func cmdCheck(args []string) int {
 		byName[oc.O.Name()] = oc
 	}
 	reg := loadReplayRegistry()
+	// models of refuted obligations: at most three per function (a function that no longer fits its contract fails
+	// dozens of obligations for one reason), extracted in parallel
+	models := map[string]string{}
+	{
+		var mu sync.Mutex
+		var wg sync.WaitGroup
+		perFn := map[string]int{}
+		for i := range viols {
+			oc, ok := byName[viols[i].Obligation]
+			if !ok || oc.Res.Status != "sat" || perFn[oc.O.Fn] >= 3 {
+				continue
+			}
+			perFn[oc.O.Fn]++
+			wg.Add(1)
+			go func(oc OblOutcome) {
+				defer wg.Done()
+				m := GetModel(wd, oc.O.Name(), oc.O.B.Script([]string{oc.O.Reach, not(oc.O.Goal)}, false), 10)
+				mu.Lock()
+				models[oc.O.Name()] = m
+				mu.Unlock()
+			}(oc)
+		}
+		wg.Wait()
+	}
 	for i := range viols {
 		v := &viols[i]
 		path := filepath.Join(replayDir, sanitizeFile(v.Obligation)+".json")
@@ -357,7 +382,10 @@ func cmdCheck(args []string) int {
 			}
 			script := oc.O.B.Script([]string{oc.O.Reach, not(oc.O.Goal)}, false)
 			if oc.Res.Status == "sat" {
-				m := GetModel(wd, oc.O.Name(), script, 20)
+				m, have := models[oc.O.Name()]
+				if !have {
+					m = "(model not extracted: more than three refuted obligations in this function)"
+				}
 				if len(m) > 60000 {
 					m = m[:60000] + "\n...truncated"
 				}
@@ -379,13 +407,19 @@ func cmdCheck(args []string) int {
 			// the contract no longer fits the function (e.g. it names a call the function does not make any more):
 			// look for a failing input of the function among the inputs of its adapter
 			fnKey := strings.TrimSuffix(v.Obligation, "#translate")
-			if a := findAdapter(reg, fnKey); a != nil && hasProp(a.Properties, *prop) {
+			for _, a := range findAdapters(reg, fnKey) {
+				if !hasProp(a.Properties, *prop) {
+					continue
+				}
 				res := parseAdapter(runAdapter(a, wd), fnKey, "")
 				res.Adapter = a.File + ":" + a.Test
 				res.Bound = a.Bound
-				rec["replay"] = res
+				if _, have := rec["replay"]; !have || res.Failed {
+					rec["replay"] = res
+				}
 				if res.Failed {
 					v.FoundInput = true
+					break
 				}
 			}
 		}
